@@ -54,6 +54,16 @@ pub fn chain_of(c: &Case) -> Chain {
       ch.ops.push(c.cutter.clone());
       ch
     }
+    Some(op) if op.starts_with("inner-of-") => {
+      // the producer is an inner observable of a flattening operator over a hot outer
+      let inner = prod_chain(&c.prod, &c.middle);
+      let fl = match op {
+        "inner-of-flat_map" => Op::FlatMap(vec![inner]),
+        "inner-of-concat_map" => Op::ConcatMap(vec![inner]),
+        _ => Op::MergeAll(2, vec![inner]),
+      };
+      Chain::new(Src::Hot(0), vec![fl, c.cutter.clone()])
+    }
     Some(op) => {
       let sec = prod_chain(&c.prod, &c.middle);
       Chain::new(Src::Hot(0), vec![crate::props::c04::mk_op(op, sec), c.cutter.clone()])
@@ -127,7 +137,12 @@ pub fn observe(c: &Case) -> Result<Obs, String> {
   };
   // the hot main input (secondary position) keeps emitting small items
   let mut acts = vec![];
-  if c.secondary.is_some() {
+  if c.secondary.map_or(false, |o| o.starts_with("inner-of-")) {
+    // one outer item: exactly one inner producer exists when the cutter fires
+    // (inners subscribed by later outer items are new producers, not the ones
+    // that were feeding the subscriber when the stream ended)
+    acts.push(TAct { t: 2 * MS, act: Act::In(0, N::Next(V::I(0))) });
+  } else if c.secondary.is_some() {
     for i in 0..30u64 {
       acts.push(TAct { t: (2 + i * 3) * MS, act: Act::In(0, N::Next(V::I((i % 3) as i64))) });
     }
@@ -279,7 +294,7 @@ fn check(cfg: &Cfg, rep: &mut Report, id: &str, c: &Case) {
 
 pub fn run(cfg: &Cfg, rep: &mut Report) {
   let prods = [Prod::Interval(5), Prod::Interval(1), Prod::Iter, Prod::Stream];
-  let two = ["skip_until", "take_until", "sample", "buffer", "with_latest_from", "merge", "zip", "combine_latest"];
+  let two = ["skip_until", "take_until", "sample", "buffer", "with_latest_from", "merge", "zip", "combine_latest", "inner-of-flat_map", "inner-of-concat_map", "inner-of-merge_all"];
   let mut idx = 0usize;
   let mut rng = Rng::new(cfg.seed ^ 0xC16);
   // sweep: every middle operator x every producer x a few cutters, producer in main position
